@@ -348,6 +348,9 @@ func (p *Peer) unpackFrame(content []byte) (MsgCode, []byte, error) {
 	if err != nil {
 		return 0, nil, err
 	}
+	if len(originData) < 4 {
+		return 0, nil, ErrUnavailablePackage
+	}
 	code := binary.BigEndian.Uint32(originData[:4])
 	if len(originData) == 4 {
 		return MsgCode(code), nil, nil
